@@ -70,6 +70,7 @@ VK_MAIN()
         /* (i) rejected iff the type does not fit the kind of sequence */
         VK_ASSERT((rc_d == OK) == (r.ok != 0), "C09: type/kind mismatch is rejected, everything else accepted");
         VK_ASSERT(rc_a == rc_d, "C09: acceptance does not depend on the penalties");
+        if (rc_d != OK) VK_ASSERT(d == NULL && a == NULL, "C16: a rejected aln_param_init hands nothing to the caller");
         if (rc_d == OK && rc_a == OK) {
                 /* (ii) defaults are the documented set */
                 long sum = 0, wsum = 0;
